@@ -190,10 +190,38 @@ let parse_oop (s : string) : oop =
     | 'y' | 'p' | 'h' | 'f' | 'b' -> ObUse [i; obj (int_of_string (List.nth args 1))]
     | _ -> ObUse [i]
 
+(* H<i>.<j> binds on object i (terminal: KEY, pen: CHANGE) a handler that drops one reference to object j the first time
+   it fires.  The reference-count model has no handlers: the script is expanded here -- every library call that dispatches
+   the owner's event is followed by the unrefs of the handlers that are still armed, in binding order.  Returns the ops and,
+   for each, the index of the token it came from. *)
+let expand_O (toks : string list) : oop list * int list =
+  let handlers = ref [] in                        (* (owner, target, armed ref), in binding order *)
+  let out = ref [] in
+  let emit t o = out := (o, t) :: !out in
+  let fire t owner =
+    List.iter (fun (ow, tg, armed) -> if ow = owner && !armed then begin armed := false; emit t (ObUnref (obj tg)) end) !handlers in
+  List.iteri (fun t s ->
+    let plain () = emit t (parse_oop s) in
+    if s = "-" || (String.length s >= 2 && s.[1] = '+') || (String.length s >= 2 && s.[0] = 'P' && s.[1] = 'c') then plain ()
+    else
+      let args = String.split_on_char '.' (rest s) in
+      let i = int_of_string (List.hd args) in
+      match s.[0] with
+      | 'H' -> let j = int_of_string (List.nth args 1) in
+               emit t (ObUse [obj i; obj j]); handlers := !handlers @ [(i, j, ref true)]
+      | 'k' | 'i' -> plain (); fire t i                               (* one call, KEY events *)
+      | 'a' ->                                                         (* o_setattrs: this many setter calls, each runs CHANGE *)
+        let calls = (match int_of_string (List.nth args 1) with 0 -> 1 | 1 -> 2 | 2 -> 1 | _ -> 12) in
+        for _ = 1 to calls do plain (); fire t i done
+      | _ -> plain ()) toks;
+  let l = List.rev !out in
+  (List.map fst l, List.map snd l)
+
 let model_O toks =
-  match o_run fuel (List.map parse_oop toks) with
+  let (ops, at) = expand_O toks in
+  match o_run fuel ops with
   | OVOk leak -> Printf.sprintf "OK leak=%d" (if leak then 1 else 0)
-  | OVFault k -> Printf.sprintf "UAF %d tr=-" (int_of_nat k)
+  | OVFault k -> Printf.sprintf "UAF %d tr=-" (List.nth at (int_of_nat k))
   | OVNoFuel k -> Printf.sprintf "NOFUEL %d" (int_of_nat k)
 
 (* ---- R: the pen stack of a render buffer ------------------------------------------------ *)
@@ -269,9 +297,13 @@ let oracle line =
           then "BAD the discipline for histories with events rejects a trace that the client discipline accepts"
           else if oracle_W ops completed leak then "OK" else "BAD well-formed client, implementation: " ^ obs)
      | "O" :: toks ->
-       let ops = List.map parse_oop toks in
+       let (ops, at) = expand_O toks in
+       (* a run that stopped at token k executed (at most) what tokens 0..k stand for *)
        let ops = if completed then ops else
-           (match otoks with _ :: k :: _ -> take (int_of_string k + 1) ops | _ -> ops) in
+           (match otoks with
+            | _ :: k :: _ -> let k = int_of_string k in
+                             List.map fst (List.filter (fun (_, t) -> t <= k) (List.combine ops at))
+            | _ -> ops) in
        if oracle_O ops completed leak then "OK" else "BAD well-formed client, implementation: " ^ obs
      | "R" :: _ ->
        (* every program of render buffer calls is a well-formed client *)
